@@ -31,9 +31,11 @@ def dense_case(cid, Phi, Psi, w, wc, wt, ft=True):
         with warnings.catch_warnings():
             warnings.simplefilter("ignore")
             kn = core.mk(KernelNormalizer, with_center=wc, with_trace=wt).fit(K.copy(), sample_weight=sw)
-            a, b = q(kn.transform(K.copy()), SQ), q(kn.transform(Kt.copy()), SQ)
+            # transform / fit_transform may work in place when asked to (copy=False): same values, on a private copy
+            cp = {} if (len(K) + len(Kt)) % 2 == 0 else {"copy": False}
+            a, b = q(kn.transform(K.copy(), **cp), SQ), q(kn.transform(Kt.copy(), **cp), SQ)
             sc = q([kn.scale_], SQ)
-            f = q(KernelNormalizer(with_center=wc, with_trace=wt).fit_transform(K.copy(), sample_weight=sw), SQ) if ft else []
+            f = q(KernelNormalizer(with_center=wc, with_trace=wt).fit_transform(K.copy(), sample_weight=sw, **cp), SQ) if ft else []
         if a is None or b is None or sc is None or f is None:
             c["degenerate"] = True          # zero trace: division by zero in the implementation (the spec decides: TrN = 0)
             c["Ktrain"] = [[0] * len(K)] * len(K)
